@@ -108,8 +108,9 @@ class LinHooks:
     """real_dicts: names of dict locals whose values are numbers; vector_dicts: dict locals holding vectors, with read-after-write of
     the last store under the same key; sites: [dict(container=<name>, name=<label>, spec=<text with __arg, __key>)]"""
 
-    def __init__(self, real_dicts=(), vector_dicts=(), sites=()):
+    def __init__(self, real_dicts=(), vector_dicts=(), sites=(), tables_are_factors=True):
         self.real_dicts, self.vector_dicts, self.sites = set(real_dicts), set(vector_dicts), list(sites)
+        self.tables_are_factors = tables_are_factors      # mbi.Factor has no __neg__ / __rsub__ (numpy arrays have)
 
     def init(self, eng, st):
         for s in self.sites:
@@ -184,7 +185,7 @@ class LinHooks:
         if isinstance(op, (ast.Add, ast.Sub)) and (vec(l) or vec(r)) and lin(l) is not None and lin(r) is not None and (isinstance(l, LinV) or isinstance(r, LinV) or vec(l) and vec(r) or isinstance(l, E.Num) or isinstance(r, E.Num)):
             if isinstance(l, E.Num) and isinstance(r, E.Num):
                 return NotImplemented
-            if isinstance(op, ast.Sub) and isinstance(l, E.Num) and not eng.in_spec():
+            if isinstance(op, ast.Sub) and isinstance(l, E.Num) and not eng.in_spec() and self.tables_are_factors:
                 return eng.abort(st)          # number - table: Factor has no __rsub__ (TypeError)
             return combine(lin(l), lin(r), 1 if isinstance(op, ast.Add) else -1)
         if isinstance(op, ast.Mult):
@@ -204,7 +205,7 @@ class LinHooks:
 
     def unary(self, eng, st, op, v, node):
         if isinstance(op, ast.USub) and isinstance(v, (LinV, E.Obj)) and lin(v) is not None and not isinstance(v, E.Num):
-            if eng.in_spec():
+            if eng.in_spec() or not self.tables_are_factors:
                 return scale(lin(v), z3.RealVal(-1))
             # the library's Factor defines neither __neg__ nor __rsub__: `-table` raises TypeError, the path ends here (and the
             # reachability probes of the function report it)
@@ -229,11 +230,18 @@ class LinHooks:
         if recv is not None and isinstance(recv, (LinV, E.Obj)) and short in ('logsumexp', 'exp', 'log', 'sum', 'max') and not isinstance(recv, E.Num) \
                 and (isinstance(recv, LinV) or recv.cls not in ('dict', 'list', 'set')):
             c = self.canon(eng, recv)
-            if short == 'logsumexp' and not args and not kw:
-                return E.Num(eng.uf('map_logsumexp_all', V, R)(c), npy=True, taint=recv.taint)       # a number
+            if short in ('logsumexp', 'sum', 'max') and not args and not kw:
+                return E.Num(eng.uf('map_%s_all' % short, V, R)(c), npy=True, taint=recv.taint)       # a number
             av = [eng.to_V(a) for a in args]
             f = eng.uf('map_%s_%d' % (short, len(av)), *([V] * (len(av) + 1) + [V]))
             return E.Obj(f(c, *av), taint=recv.taint)
+        # function forms on tables: logsumexp(x) is a number, np.exp(x) / np.log(x) are tables
+        vec = lambda x: isinstance(x, LinV) or (isinstance(x, E.Obj) and x.cls not in ('dict', 'list', 'set', 'str', 'tuple', 'type', 'function'))
+        if recv is None and len(args) == 1 and not kw and vec(args[0]):
+            if name in ('logsumexp', 'scipy.special.logsumexp'):
+                return E.Num(eng.uf('map_logsumexp_all', V, R)(self.canon(eng, args[0])), npy=True, taint=args[0].taint)
+            if name in ('np.exp', 'np.log'):
+                return E.Obj(eng.uf('map_%s_0' % name[3:], V, V)(self.canon(eng, args[0])), taint=args[0].taint)
         return NotImplemented
 
     def _root_and_key(self, eng, st, node, k_last):
